@@ -18,6 +18,8 @@ from .harness import ConcreteBackend, OutOfContract, SymBackend
 TIMEOUT_MS = int(os.environ.get("PVC_TIMEOUT_MS", "60000"))  # last-stage wall-clock budget
 STAGE_MS = int(os.environ.get("PVC_STAGE_MS", "8000"))  # early-stage wall-clock budget
 RLIMIT = int(os.environ.get("PVC_RLIMIT", "2000000000"))
+SLOW_TASK_S = float(os.environ.get("PVC_SLOW_TASK_S", "200"))
+MONOTONE_WALL_S = float(os.environ.get("PVC_MONOTONE_WALL_S", "45"))  # per obligation
 QUICK_RLIMIT = int(os.environ.get("PVC_QUICK_RLIMIT", "2500000"))
 
 
@@ -124,6 +126,7 @@ def _monotone_facts(ob, axioms, apps, fc):
 
     facts = []
     groups = {}
+    t_end = time.time() + MONOTONE_WALL_S  # wall-clock guard: a partial fact list is sound
     for app in apps:
         info = sg.sigma_registry()[app.decl().name()]
         key = tuple(a.get_id() for a in app.children()[: info.nb])
@@ -133,6 +136,8 @@ def _monotone_facts(ob, axioms, apps, fc):
         if len(grp) < 2 or len(grp) > 6:
             continue
         for A, Bp in _it.permutations(grp, 2):
+            if time.time() > t_end:
+                return facts
             bA, bodyA = sg.unfold(A, fc)
             bB, bodyB = sg.unfold(Bp, fc)
             for perm in _it.permutations(range(nb)):
@@ -538,7 +543,16 @@ def verify_config(contract, repo, cfg, sizes=None, timeout_ms=None):
             if dk in seen:
                 continue
             seen.add(dk)
-            status, secs, _ = discharge(ob, po.axioms, timeout_ms)
+            global MONOTONE_WALL_S
+            if out["fails"] and time.time() - t0 > SLOW_TASK_S:
+                # the function already has an undischarged obligation and the task is far beyond
+                # anything seen on a tree that verifies: finish the remaining obligations on a
+                # short budget (every successful call is < 2 s) so that the task reports what it
+                # found instead of running into its hard deadline
+                tm, MONOTONE_WALL_S = min(timeout_ms or TIMEOUT_MS, 6000), 5.0
+            else:
+                tm = timeout_ms
+            status, secs, _ = discharge(ob, po.axioms, tm)
             rec = by_name.setdefault(ob.name, dict(status="proved", secs=0.0, kind=ob.kind, n=0, detail=None))
             rec["secs"] += secs
             rec["n"] += 1
@@ -757,7 +771,7 @@ def find_counterexample(contract, repo, cfg, ob_name, seed=0, budget_s=60, hint=
 def verify_bounded(contract, repo, cfg, seed, thorough=False):
     """Bounded stand-in (tier B): same contract and VC generator, concrete sizes from the
     contract's size space, symbolic contents, path-complete.  Never counted as proved."""
-    cap = 60 if thorough else 14
+    cap = getattr(contract, "thorough_cap", 60) if thorough else getattr(contract, "quick_cap", 40)
     by_name = {}
     failed = []
     n_cfg = n_oor = 0
